@@ -84,7 +84,7 @@ func (w *World) appOp(task string, o AppOp) {
 }
 
 func (w *World) appSend(task, alias string, sock engine.Socket, o AppOp) {
-	data := payloadFor(o.ID, o.Size)
+	data := payloadForC(o.ID, o.Size, o.Chars)
 	var opts *packet.Options
 	switch o.Opt {
 	case "nocompress":
